@@ -3,8 +3,8 @@
 
 Gen/C28.lean gets
   DOCTOR_VEC_REBUILD_KEEPS   `DoctorExecutor::apply_pending_rebuilds` with `vec = true` loads the committed
-                             vector index before `rebuild_indexes` (true = the repair of /verif/fixes/C28.diff =
-                             third hunk of fixes/C21.diff) instead of dropping it (`mem.vec_index = None`)
+                             vector index before `rebuild_indexes` (true = the repair, fix 842ec3b = third hunk of
+                             fixes/C21.diff) instead of dropping it (`mem.vec_index = None`)
                                                                                      (src/memvid/doctor.rs)
 Everything else is a shape CHECK: the translator fails (exit 2, broken tie) when a statement the hand-written
 model mirrors is no longer in the source:
